@@ -228,6 +228,35 @@ func extractPatterns(pkgDir string) (map[string]string, error) {
 			}
 		}
 	}
+	// the placeholder: the constant handed to (*Regexp).ReplaceAll anywhere in the package
+	for _, mem := range ld.pkg.Members {
+		f, ok := mem.(*ssa.Function)
+		if !ok {
+			continue
+		}
+		fns := append([]*ssa.Function{f}, f.AnonFuncs...)
+		for _, fn := range fns {
+			for _, b := range fn.Blocks {
+				for _, in := range b.Instrs {
+					call, ok := in.(*ssa.Call)
+					if !ok {
+						continue
+					}
+					callee, ok := call.Call.Value.(*ssa.Function)
+					if !ok || callee.String() != "(*regexp.Regexp).ReplaceAll" || len(call.Call.Args) < 3 {
+						continue
+					}
+					arg := call.Call.Args[2]
+					if cv, ok := arg.(*ssa.Convert); ok {
+						arg = cv.X
+					}
+					if c, ok := arg.(*ssa.Const); ok && c.Value != nil {
+						out["placeholder"] = constant.StringVal(c.Value)
+					}
+				}
+			}
+		}
+	}
 	if out["addr"] == "" || out["full0"] == "" {
 		return nil, fmt.Errorf("could not find the scrubber patterns in %s (found %v)", pkgDir, out)
 	}
@@ -462,6 +491,8 @@ func runRegex(spec *RegexSpec, tier, id string) *RegexResult {
 	if capS == 0 {
 		capS = 60
 	}
+	placeholder, havePlaceholder := pats["placeholder"]
+	delete(pats, "placeholder")
 	all := map[string]string{}
 	for k, v := range pats {
 		all[k] = v
@@ -581,8 +612,13 @@ func runRegex(spec *RegexSpec, tier, id string) *RegexResult {
 		jobs = append(jobs, job{name: "F1 every " + fn + " match contains an address match", script: s, expectUnsat: true, fam: "inner-match"})
 	}
 	// the placeholder contains no address
-	s := defs + "(assert (= T \"[scrubbed]\"))\n(assert (str.in_re T (re.++ (re.* anyc) addr (re.* anyc))))\n"
-	jobs = append(jobs, job{name: "F1 the placeholder contains no address match", script: s, expectUnsat: true, fam: "placeholder"})
+	if !havePlaceholder || placeholder == "" {
+		res.Inconcl = append(res.Inconcl, "could not find the (non-empty) placeholder constant handed to ReplaceAll")
+	} else {
+		res.Patterns["placeholder"] = placeholder
+		s := defs + "(assert (= T \"" + smtEsc(placeholder) + "\"))\n(assert (str.in_re T (re.++ (re.* anyc) addr (re.* anyc))))\n"
+		jobs = append(jobs, job{name: "F1 the placeholder contains no address match", script: s, expectUnsat: true, fam: "placeholder"})
+	}
 
 	t0 := time.Now()
 	type outT struct {
